@@ -454,6 +454,44 @@ callmon_init(struct callmon *cm, uint64_t seed)
         cm->cur_variant = -1;
         g_cm = cm;
 }
+int g_abi_cov;
+/* names of exported library symbols that were entered directly through the trampoline */
+static char abi_names[1024][48];
+static int abi_nnames;
+static pthread_mutex_t abi_mu = PTHREAD_MUTEX_INITIALIZER;
+static void
+abi_note_export(void *fn)
+{
+        Dl_info di;
+        static __thread void *last[8];
+        for (int i = 0; i < 8; i++)
+                if (last[i] == fn)
+                        return;
+        static __thread int li;
+        last[li++ & 7] = fn;
+        if (!dladdr(fn, &di) || !di.dli_sname || di.dli_saddr != fn)
+                return;
+        pthread_mutex_lock(&abi_mu);
+        int i;
+        for (i = 0; i < abi_nnames; i++)
+                if (!strcmp(abi_names[i], di.dli_sname))
+                        break;
+        if (i == abi_nnames && abi_nnames < 1024)
+                snprintf(abi_names[abi_nnames++], sizeof abi_names[0], "%s", di.dli_sname);
+        pthread_mutex_unlock(&abi_mu);
+}
+void
+abi_flush(void)
+{
+        for (int i = 0; i < abi_nnames; i += 40) {
+                char line[40 * 52 + 8] = "";
+                for (int k = i; k < abi_nnames && k < i + 40; k++) {
+                        strcat(line, k > i ? "," : "");
+                        strcat(line, abi_names[k]);
+                }
+                ev_printf("{\"ev\":\"abi_exports\",\"names\":\"%s\"}", line);
+        }
+}
 static const char *regn[] = { "rbx", "rbp", "r12", "r13", "r14", "r15" };
 static const int regidx[] = { 1, 6, 12, 13, 14, 15 };
 uint64_t
@@ -477,9 +515,21 @@ mcall(const char *name, void *fn, int nargs, ...)
         } else
                 tc->stackcopy = 0;
         tc->mxcsr_in = cm->mxcsr;
+        int mxi = -1;
+        if (g_abi_cov) {
+                /* enter the library with varying MXCSR: rounding modes, FTZ/DAZ, sticky exception flags set
+                 * (all exceptions stay masked) - the register must come back bit for bit */
+                static const uint32_t mxv[] = { 0x1f80, 0x3f80, 0x5f80, 0x7f80, 0x9f80, 0x1fc0, 0xffc0, 0x1fbf, 0x1f81, 0xffff };
+                mxi = (int) rng_below(&cm->rng, ARRAY_SZ(mxv));
+                tc->mxcsr_in = mxv[mxi] & 0xffff;
+        }
         cm->cur_fn = name;
         cm->ncalls++;
         uint64_t r = imbv_tramp(tc);
+        if (g_abi_cov) {
+                cov_hit("C18", "%s|%s|ret%d|mx%d", variant_name(cm->cur_variant), name, r != 0, mxi);
+                abi_note_export(fn);
+        }
         /* C18 */
         unsigned bad = 0;
         char key[200], det[400];
